@@ -48,7 +48,10 @@ def text_of(tok, variant=0):
         _KW.update(keyword_text())
     if tok in TXT:
         if tok == 'LiteralToken':
-            return ['2', '"x"', '3.5', 'TRUE'][variant % 4]
+            # numbers and texts carry a marker that identifies the position (variant = spelling variant + position in the formula):
+            # a literal that was parsed must be found again in the code emitted for the cell
+            m = 7000 + variant
+            return [str(m), f'"x{m}"', f'{m}.5', 'TRUE'][variant % 4]
         if tok == 'CellIdentifierToken':
             return ['A1', '$B$2', 'S!B1'][variant % 3]
         if tok == 'SeparatorToken':
@@ -89,6 +92,19 @@ def translate_outcome(text, timeout=20.0):
         return 'ok', 'eval:' + type(e).__name__, {'k': 'err', 'e': 'ANY'}
 
 
+def dropped_literals(text, toks, variant):
+    """markers of number / text literals of an ACCEPTED formula that do not occur in the emitted class: a parsed part that was dropped"""
+    cells = dict(CONSTS)
+    cells[(25, 0)] = text
+    try:
+        src, _ = repo.with_timeout(20.0, repo.translate_entry, repo.mem_excel([('S', cells)]), Cell(0, 25, 0))
+    except BaseException as e:  # noqa
+        if isinstance(e, (KeyboardInterrupt, SystemExit)):
+            raise
+        return []
+    return [str(7000 + variant + i) for i, t in enumerate(toks) if t == 'LiteralToken' and (variant + i) % 4 != 3 and str(7000 + variant + i) not in src]
+
+
 def judge_rec(args):
     rec, variant = args
     try:
@@ -113,6 +129,10 @@ def judge_rec(args):
         drift = '' if (o == pred or (pred == 'ok' and o in ('lib', 'foreign', 'syntax'))) else f'model predicts {pred}, code gives {o}'
         if not rec['acc'] and o != 'lib':
             return 'bad', text, f"the grammar does not derive the whole text, outcome '{o}{(':' + t) if t else ''}' instead of the parser exception", drift
+        if o == 'ok' and 'TextKeywordToken' not in toks:      # (TEXT is translated as its value: its format argument is not applied - not a C05 matter)
+            lost = dropped_literals(text, toks, variant)
+            if lost:
+                return 'bad', text, f'the formula was accepted but the literals {lost} do not occur in the emitted class: a part of the formula was dropped', drift
         return 'ok', text, '', drift
     except Exception as e:
         return 'harness', '', f'{type(e).__name__}: {e}', ''
@@ -305,6 +325,10 @@ def gen_records(run):
                                'INVARIANT InvWholeOrLib', 'INVARIANT InvWholeImpliesCFG'], workers=14, timeout=3000, tag='Gen_C05_soups')
     out['soups'] = r.records
     run.exhaustive[f'token soups <= {ml} over 18 terminal classes'] = True
+    r = run.tlc('MC_Gen_C05', ['SPECIFICATION Spec', 'CONSTANT Alpha <- AlphaPct', f'CONSTANTS MaxLen = {5 if run.quick else 6} Variant = "fixed"',
+                               'INVARIANT InvWholeOrLib', 'INVARIANT InvWholeImpliesCFG'], workers=8, timeout=3000, tag='Gen_C05_pct')
+    out['pct_chains'] = r.records
+    run.exhaustive['chains of operands, %, + and & up to the longer bound'] = True
     rp = run.tlc('MC_Gen_C05', ['SPECIFICATION Spec', 'CONSTANT Alpha <- AlphaTiny', 'CONSTANTS MaxLen = 2 Variant = "pinned"',
                                 'INVARIANT InvWholeOrLib'], workers=4, timeout=600, tag='Gen_C05_pinned', expect_ok=False)
     if rp.ok:
